@@ -218,13 +218,23 @@ pub fn generate(prop: &str, tier: &str, r: &mut Rng, out: &mut Vec<String>) -> G
             GenInfo { rule: "seeded structured target URIs scheme://[user[:password]@]host[:port][/path][?query] with scheme in {http,https,ipp,ipps}, hosts of all three forms (registered name, IPv4, bracketed IPv6), ports 1-65535 or absent, percent-encoded paths, user-info and query carrying marker tokens (user-info incl. ':' and '@'); through canonicalize_uri and, every fourth case, through a request constructor or builder; non-trivial = distinct URIs the http crate accepts".into(), exhaustive: false }
         }
         "C14" => {
+            {
+                // the URL a client really contacts: a few exchanges with different targets in one process, both clients
+                // (the mapping must be applied per client and per request, not remembered)
+                let body = "010100000000000101470012617474726962757465732d6368617273657400057574662d3803";
+                for (i, path) in ["/ipp/print", "/printers/q2?waitjob=false", "/a/b/c", "/", "/printers/q3?x=1&y=2", "/jobs/7"].iter().enumerate() {
+                    for c in ["async", "blocking"] {
+                        out.push(format!("send {} (msg 0101 000b 0000000{} (g 01)) - (cfg) (target {}) (srv 200 cl {})", c, i + 1, hex(path.as_bytes()), body));
+                    }
+                }
+            }
             let n = if thorough { 500_000 } else { 5_000 };
             for _ in 0..n {
                 let mut rr = r.fork();
                 let u = crate::gen2::gen_uri(&mut rr);
                 out.push(crate::gen2::transport_line(&u));
             }
-            GenInfo { rule: "seeded structured target URIs as for C13, through the cfg-guarded wrapper of ipp_uri_to_string; expected URL from the generator's ground truth per RFC 3510 / RFC 7472 (port 631 for both schemes); non-trivial = distinct URIs the http crate accepts".into(), exhaustive: false }
+            GenInfo { rule: "twelve real exchanges (both clients, six different targets, one process: the server must see the POST for that client's own target), then seeded structured target URIs as for C13 (ports incl. 0), through the cfg-guarded wrapper of ipp_uri_to_string; expected URL from the generator's ground truth per RFC 3510 / RFC 7472 (port 631 for both schemes); non-trivial = distinct URIs the http crate accepts".into(), exhaustive: false }
         }
         "C10" => {
             let n = if thorough { 200_000 } else { 5_000 };
@@ -307,7 +317,39 @@ pub fn generate(prop: &str, tier: &str, r: &mut Rng, out: &mut Vec<String>) -> G
                 }
                 out.push(line(if i % 2 == 0 { "async" } else { "async-deferred" }, &evs2));
             }
-            GenInfo { rule: "every composition into chunks of short well-formed and malformed messages (all 2^(n-1) for n <= 16 quick / 21 thorough), uniform chunk sizes 1..n with 0-2 not-ready results before each chunk (immediate and deferred wake-up), and seeded random compositions with not-ready results of generated well-formed messages, wire trees and mutated messages (one in ten with an injected I/O failure); each async outcome is compared with the blocking parser's outcome on the same data/error events and with the model; non-trivial = distinct scripts".into(), exhaustive: false }
+            {
+                // values and names whose length fields pass 4096, 2^15 and reach 2^16 - 1 (well-formed, and cut short),
+                // and the same messages through every public entry point of both parsers (`parse` op)
+                for n in [4095usize, 4096, 4097, 20000, 32767, 32768, 40000, 65535] {
+                    for (tag, as_name) in [(0x41u8, false), (0x30, false), (0x44, true)] {
+                        let mut b = vec![1u8, 1, 0, 0x0b, 0, 0, 0, 7, 1, tag];
+                        let body = vec![b'v'; n];
+                        if as_name {
+                            b.extend_from_slice(&(n as u16).to_be_bytes());
+                            b.extend_from_slice(&body);
+                            b.extend_from_slice(&[0, 1, b'k']);
+                        } else {
+                            b.extend_from_slice(&[0, 1, b'a']);
+                            b.extend_from_slice(&(n as u16).to_be_bytes());
+                            b.extend_from_slice(&body);
+                        }
+                        b.extend_from_slice(&[0x22, 0, 1, b'z', 0, 1, 1, 3, 0xaa]);
+                        out.push(line("async", &uniform(&b, 1000)));
+                        out.push(line("async-deferred", &uniform(&b, 4096)));
+                        out.push(format!("parse {}", hex(&b)));
+                        // the announced length is larger than what follows
+                        let cut = &b[..b.len().min(10 + 2 + 3 + n / 2)];
+                        out.push(line("async", &uniform(cut, 700)));
+                    }
+                }
+                for _ in 0..150 {
+                    let mut rr = r.fork();
+                    let (mut b, p) = wellformed(&mut rr);
+                    b.extend_from_slice(&p);
+                    out.push(format!("parse {}", hex(&b)));
+                }
+            }
+            GenInfo { rule: "every composition into chunks of short well-formed and malformed messages (all 2^(n-1) for n <= 16 quick / 21 thorough), uniform chunk sizes 1..n with 0-2 not-ready results before each chunk (immediate and deferred wake-up), and seeded random compositions with not-ready results of generated well-formed messages, wire trees and mutated messages (one in ten with an injected I/O failure), messages with values and names of 4095-65535 octets (whole and cut short), and 174 messages through every public entry point of both parsers (parse / parse_parts, explicit reader / bare reader converted by From); each async outcome is compared with the blocking parser's outcome on the same data/error events and with the model; non-trivial = distinct scripts".into(), exhaustive: false }
         }
         "C06" => {
             use crate::gen3::*;
@@ -694,6 +736,19 @@ pub fn generate(prop: &str, tier: &str, r: &mut Rng, out: &mut Vec<String>) -> G
                     }
                 }
             }
+            {
+                // bodies of 4095-65535 octets as attribute value, additional value and member value
+                use crate::wiregen::*;
+                for n in [4095usize, 4096, 4097, 20000, 32767, 32768, 65535] {
+                    let long = |t: u8| WVal::Plain(t, vec![if t == 0x30 { 0x03 } else { b'x' }; n]);
+                    let w = WMsg { version: 0x0101, op: 0, id: 1, groups: vec![
+                        WGroup { tag: 4, attrs: vec![WAttr { name: b"a".to_vec(), vals: vec![long(0x41), WVal::Plain(0x21, vec![0, 0, 0, 1]), long(0x30)] },
+                                                     WAttr { name: b"c".to_vec(), vals: vec![WVal::Coll(vec![(b"m".to_vec(), vec![long(0x44)])])] },
+                                                     WAttr { name: b"z".to_vec(), vals: vec![WVal::Plain(0x22, vec![1])] }] },
+                        WGroup { tag: 2, attrs: vec![WAttr { name: b"after".to_vec(), vals: vec![WVal::Plain(0x21, vec![0, 0, 0, 2])] }] }] };
+                    out.push(format!("wire {} 03aa", show_wmsg(&w)));
+                }
+            }
             for _ in 0..n {
                 let mut rr = r.fork();
                 let w = crate::wiregen::gen_wmsg(&mut rr, &lim);
@@ -701,7 +756,7 @@ pub fn generate(prop: &str, tier: &str, r: &mut Rng, out: &mut Vec<String>) -> G
                 out.push(format!("wire {} {}", crate::wiregen::show_wmsg(&w), hex(&p)));
             }
             GenInfo {
-                rule: "seeded random wire trees from the RFC 8010 grammar (0-4 groups incl. repeated/empty, 0-4 attributes with 1-4 values, every tag 0x10-0x4a, syntactically valid bodies incl. non-UTF-8 text and rare 255/256/65535-byte bodies, nested collections with multi-valued and duplicate members, duplicate attribute names; ~0.8% of the choices deliberately malformed), serialised by the harness's own serializer, preceded by large shallow trees (1100/2500 values, attributes, groups, members) and by every byte value 0x00-0xff written over, or inserted before, each of the ten tag positions of a message with two groups, a set and a collection (both parsers must reject, naming the byte, exactly when it lies outside 0x01-0x05 and 0x10-0x4a); non-trivial = distinct case lines the parser accepts or rejects with a definite outcome".into(),
+                rule: "seeded random wire trees from the RFC 8010 grammar (0-4 groups incl. repeated/empty, 0-4 attributes with 1-4 values, every tag 0x10-0x4a, syntactically valid bodies incl. non-UTF-8 text and rare 255/256/65535-byte bodies, nested collections with multi-valued and duplicate members, duplicate attribute names; ~0.8% of the choices deliberately malformed), serialised by the harness's own serializer, preceded by large shallow trees (1100/2500 values, attributes, groups, members), by bodies of 4095-65535 octets in every position, and by every byte value 0x00-0xff written over, or inserted before, each of the ten tag positions of a message with two groups, a set and a collection (both parsers must reject, naming the byte, exactly when it lies outside 0x01-0x05 and 0x10-0x4a); non-trivial = distinct case lines the parser accepts or rejects with a definite outcome".into(),
                 exhaustive: false,
             }
         }
